@@ -94,17 +94,22 @@ def file_guard(rep: Report, mods):
                             continue
                     except Exception:
                         continue
-                    path = Path(tmp) / f"settled_{k}.py"
-                    path.write_bytes(content.encode("utf-8"))
-                    os.utime(path, ns=(10 ** 18, 10 ** 18))
-                    try:
-                        ret = main.format_file(path)
-                    except Exception:
-                        continue
-                    n += 1
-                    if path.read_bytes() != content.encode("utf-8") or os.stat(path).st_mtime_ns != 10 ** 18 or ret:
-                        rep.violation("format_file rewrote a file whose formatted text equals its content",
-                                      {"content": content, "file_after": path.read_text(), "returned": bool(ret)})
+                    # stored with LF and with CRLF line ends (the text the formatter sees is the same)
+                    for eol_name, stored in (("lf", content.encode("utf-8")), ("crlf", content.replace("\n", "\r\n").encode("utf-8"))):
+                        if eol_name == "crlf" and ("\r" in content or '"""' in content or "'''" in content or "\\\n" in content):
+                            continue        # line ends inside literals / continuations are part of the program text
+                        path = Path(tmp) / f"settled_{k}_{eol_name}.py"
+                        path.write_bytes(stored)
+                        os.utime(path, ns=(10 ** 18, 10 ** 18))
+                        try:
+                            ret = main.format_file(path)
+                        except Exception:
+                            continue
+                        n += 1
+                        if path.read_bytes() != stored or os.stat(path).st_mtime_ns != 10 ** 18 or ret:
+                            rep.violation(f"format_file rewrote a file ({eol_name} line ends) whose formatted text equals its content",
+                                          {"content": content, "line_ends": eol_name, "file_after": path.read_bytes().decode("utf-8", "replace"),
+                                           "returned": bool(ret)})
     finally:
         main.format_code = orig
         shutil.rmtree(tmp, ignore_errors=True)
